@@ -46,12 +46,12 @@ def run(r):
         fams = [("LRF", 4, AB, 4, [i], {"wrap": wraps[i % 4], "twophase": True}) for i in range(4)] + \
                [("LRF", 3, AB, 2, [i], {"wrap": wraps[(i + 1) % 4], "twophase": True}) for i in range(2)] + \
                [("LRN", 5, AB, 2, [i], {"wrap": wraps[i * 2], "twophase": True}) for i in range(2)] + \
-               [("DUPS", 4, [97, 98, 120], 2, [i], {"wrap": wraps[i * 2], "twophase": True}) for i in range(2)]
+               [("DUPS", 4, [97, 98, 120, 32], 2, [i], {"wrap": wraps[i * 2], "twophase": True}) for i in range(2)]
         nrnd, maxlen = 600, 7
     else:
         fams = [("LRF", 3, AB, 8, [s % 8], {"wrap": "all", "twophase": True}), ("LRF", 3, AB, 8, [(s + 3) % 8], {"wrap": wraps[s % 4], "twophase": True}),
                 ("LRN", 4, AB, 1, [0], {"wrap": wraps[(s + 1) % 2 * 2], "twophase": True}),
-                ("DUPS", 3, [97, 98, 120], 1, [0], {"wrap": wraps[s % 2 * 2], "twophase": True})]
+                ("DUPS", 3, [97, 98, 120, 32], 1, [0], {"wrap": "none", "twophase": True})]
         nrnd, maxlen = 120, 5
     # model: AtMostOnce + Transparent (memoised run, then the same asks on the grammar with every Memoize removed);
     # the exported cases are replayed (conformance of the memoised runs with the machine) ...
